@@ -3,6 +3,7 @@
 package pdf
 
 import (
+	"strings"
 	"bytes"
 	"crypto/aes"
 	"crypto/cipher"
@@ -76,8 +77,14 @@ func Verif_C09_pkcs7() {
 
 var verifPasswords = []string{"", "u", "owner", "0123456789012345678901234567890", "01234567890123456789012345678901", "012345678901234567890123456789012", "pässwörd"}
 
+// verifLongA is 126 bytes long: one more two-byte character straddles the
+// 127-byte limit of revision 6 passwords.
+var verifLongA = strings.Repeat("a", 126)
+
 var verifPasswordPairs = [][2]string{
 	{"", "o"}, {"u", ""}, {"u", "owner"},
+	{verifLongA + "é", "o"},
+	{"u", verifLongA + "éx"},
 	{"01234567890123456789012345678901", "o"},
 	{"012345678901234567890123456789012", "pässwörd"},
 	{"pässwörd", "u"},
@@ -213,6 +220,43 @@ func Verif_C09_passwords() {
 		_, _, _, err = verifReadSecret(d, "wrong")
 		verifrt.Assert(errors.As(err, &ae), "a different password fails with an AuthenticationError")
 	}
+	// near misses: the last character dropped or replaced.  They are other
+	// passwords unless the change lies beyond the significant prefix (32
+	// bytes of PDFDocEncoding up to revision 4, 127 bytes of UTF-8 in
+	// revision 6).
+	for _, base := range []string{d.upw, opw} {
+		if base == "" || d.upw == "" {
+			continue // with an empty user password the file opens regardless
+		}
+		rs := []rune(base)
+		for _, miss := range []string{string(rs[:len(rs)-1]), string(rs[:len(rs)-1]) + "Ā", string(rs[:len(rs)-1]) + "q"} {
+			if verifSignificant(d.v, miss) == verifSignificant(d.v, d.upw) || verifSignificant(d.v, miss) == verifSignificant(d.v, opw) {
+				continue
+			}
+			if d.v < V2_0 && strings.ContainsRune(miss, 'Ā') {
+				continue // not representable in PDFDocEncoding
+			}
+			_, _, _, err = verifReadSecret(d, miss)
+			var ae *AuthenticationError
+			verifrt.Assert(errors.As(err, &ae), "a near-miss password fails with an AuthenticationError")
+		}
+	}
+}
+
+// verifSignificant is the part of a password that the standard security
+// handler uses (the list entries are not changed by SASLprep).
+func verifSignificant(v Version, pw string) string {
+	if v >= V2_0 {
+		if len(pw) > 127 {
+			return pw[:127]
+		}
+		return pw
+	}
+	b := verifLatin1(pw)
+	if len(b) > 32 {
+		b = b[:32]
+	}
+	return string(b)
 }
 
 // ---------------------------------------------------------------------------
